@@ -4,7 +4,7 @@ the same seeded runs, interpreted by Miri, which also sees what the checked
 native build cannot (invalid values out of mem::zeroed, use of freed memory,
 aliasing violations, leaks are not checked).
 
-usage: miri_spot.py <PROP> <seed> <procs> <runs_per_proc> <verif_root>
+usage: miri_spot.py <PROP> <seed> <procs> <runs_per_proc> <verif_root> [<dir of check script>]
 exit 0 = clean, 1 = VIOLATION printed, 2 = harness problem (Miri unavailable ...)
 """
 import json
@@ -14,7 +14,8 @@ import sys
 import time
 
 prop, seed, procs, rpp, root = sys.argv[1], int(sys.argv[2]), int(sys.argv[3]), int(sys.argv[4]), sys.argv[5]
-sim = os.path.join(root, "sim")
+here = sys.argv[6] if len(sys.argv) > 6 else root
+sim = os.path.join(here, "sim")
 work = os.path.join(root, "work")
 os.makedirs(work, exist_ok=True)
 env = dict(os.environ, MIRIFLAGS="-Zmiri-disable-isolation", CARGO_NET_OFFLINE="true")
@@ -65,7 +66,7 @@ for w, run, what in failures[:3]:
     rep = os.path.join(root, "replays")
     os.makedirs(rep, exist_ok=True)
     path = os.path.join(rep, "%s-%d-miri-run%d.json" % (prop, seed, run))
-    native = os.path.join(root, "target", "release", "itree-sim")
+    native = os.path.join(here, "target", "release", "itree-sim")
     subprocess.run([native, "dump-trace", "--prop", prop, "--tier", "miri", "--seed", str(seed), "--run", str(run), "--out", path, "--engine", "miri", "--note", what[:600]], check=False)
     print("VIOLATION property=%s replay=%s" % (prop, path))
     print("  " + what[:600])
